@@ -3,33 +3,36 @@ package main
 // Running one harness (one obligation group): symbolic execution, then discharge of every recorded obligation.
 
 import (
-	"sync/atomic"
 	"fmt"
 	"math/big"
+	"os"
 	"regexp"
 	"sort"
+	"strconv"
 	"strings"
 	"sync"
+	"sync/atomic"
 	"time"
 
 	"golang.org/x/tools/go/ssa"
 )
 
 type ObRun struct {
-	Dir      *Directive
-	Ld       *Loaded
-	Cases    map[string]int
-	Name     string
-	Obs      []*Oblig
-	Err      string // engine error (inconclusive)
-	ExecSecs float64
-	Encoded  map[string]int
-	Inputs   []*Term
-	Uses     map[string]int
-	Asserted map[*Term]bool
-	UsedGhost bool
-	Proved   string
-	TermSize int
+	Dir         *Directive
+	Ld          *Loaded
+	Cases       map[string]int
+	Name        string
+	Obs         []*Oblig
+	Err         string // engine error (inconclusive)
+	ExecSecs    float64
+	Encoded     map[string]int
+	Inputs      []*Term
+	Uses        map[string]int
+	Asserted    map[*Term]bool
+	UsedGhost   bool
+	ShadowPairs [][2]*Term
+	Proved      string
+	TermSize    int
 }
 
 func (r *ObRun) attr(k, def string) string {
@@ -51,6 +54,7 @@ func (r *ObRun) setup() *Ctx {
 	c.maxInstr = int64(atoiDef(r.attr("maxinstr", ""), 0))
 	c.cutFix = r.attr("cutfix", "")
 	c.guardType = r.attr("guarded", "")
+	c.shadow = r.attr("shadow", "") != ""
 	c.trace = verbose
 	if ap := r.attr("allowpanic", ""); ap != "" {
 		c.allowPanic = regexp.MustCompile(ap)
@@ -132,6 +136,19 @@ func (r *ObRun) execute() (c *Ctx) {
 				if c != nil && len(c.stack) > 0 {
 					r.Err += " [in " + shortName(c.stack[len(c.stack)-1]) + "]"
 				}
+				if c != nil {
+					// obligations recorded before the engine gave up are still obligations of the real code
+					// (each holds at its program point under its own path condition); only refutations are
+					// taken from them, the run as a whole stays inconclusive
+					for _, ob := range c.obs {
+						if ob.Kind != "reach" {
+							r.Obs = append(r.Obs, ob)
+						}
+					}
+					r.Inputs = c.inputs
+					r.Uses = c.contractUse
+					r.UsedGhost = c.usedGhost
+				}
 				return
 			}
 			panic(rec)
@@ -148,7 +165,7 @@ func (r *ObRun) execute() (c *Ctx) {
 	}
 	st := &State{mem: mem, ghost: map[string]Value{}}
 	if r.attr("sharedro", "") != "" {
-		st.shared = &sharedWatch{max: r.Ld.baseObjN, hits: map[string]bool{}}
+		st.shared = &sharedWatch{max: r.Ld.baseObjN, hits: map[string]bool{}, objs: map[*Object]bool{}}
 		defer func() {
 			var names []string
 			for n := range st.shared.hits {
@@ -156,7 +173,7 @@ func (r *ObRun) execute() (c *Ctx) {
 			}
 			sort.Strings(names)
 			for _, n := range names {
-				c.obs = append(c.obs, &Oblig{Name: "shared state: no store to package-level object " + shortName(n) + " after initialisation", Kind: "lock", Hyp: TrueT, Goal: FalseT})
+				c.obs = append(c.obs, &Oblig{Name: "shared state: no store to shared object " + shortName(n) + " (package-level after initialisation, or declared shared by the harness)", Kind: "lock", Hyp: TrueT, Goal: FalseT})
 			}
 			c.obs = append(c.obs, &Oblig{Name: "shared state: stores of this call go to caller-owned or fresh objects only (checked on every explored path)", Kind: "lock", Hyp: TrueT, Goal: TrueT})
 			r.Obs = c.obs
@@ -182,6 +199,7 @@ func (r *ObRun) execute() (c *Ctx) {
 	r.Uses = c.contractUse
 	r.Asserted = c.asserted
 	r.UsedGhost = c.usedGhost
+	r.ShadowPairs = c.shadowPairs
 	return c
 }
 
@@ -550,3 +568,289 @@ func sortedEncoded(m map[string]int) []string {
 }
 
 var _ = ssa.NewProgram
+
+// concretiseAbstract: a solver model of an obligation that goes through contracts / loop cuts fixes the values of
+// havoc'd intermediate results (hv!k ...), which the real code may never produce from the model's inputs. Here
+// the harness is executed again with every call going to the real code, and the model's intermediate vectors
+// are transplanted into the input vectors of the same length (an intermediate result of a limb routine is
+// usually a fixed point, or close to one, of the routine that produced it). Candidates are evaluated on the
+// real-code obligations; the first violated one is returned with a concrete input for native replay.
+func (r *ObRun) concretiseAbstract(abs *Oblig) *Oblig {
+	model, wantName := abs.Model, abs.Name
+	if r.UsedGhost || len(model) == 0 || r.attr("cut", "") != "" {
+		return nil
+	}
+	d2 := *r.Dir
+	d2.Attrs = map[string]string{}
+	for k, v := range r.Dir.Attrs {
+		d2.Attrs[k] = v
+	}
+	d2.Attrs["use"] = ""
+	d2.Attrs["maxinstr"] = "3000000"
+	r2 := &ObRun{Dir: &d2, Ld: r.Ld, Cases: r.Cases, Name: r.Name}
+	r2.execute()
+	if r2.Err != "" {
+		return nil
+	}
+	var cand []*Oblig
+	var roots []*Term
+	for _, ob := range r2.Obs {
+		if ob.Kind != "reach" && ob.Kind != "leak" && ob.Kind != "lock" {
+			cand = append(cand, ob)
+			roots = append(roots, ob.Hyp, ob.Goal)
+		}
+	}
+	if os.Getenv("VERIF_DEBUG") != "" {
+		fmt.Fprintf(os.Stderr, "[concretise] run %s: err=%q %d candidate obligations, want %q\n", r.Name, r2.Err, len(cand), wantName)
+	}
+	if len(cand) == 0 {
+		return nil
+	}
+	vars := termVars(roots...)
+	groups, _ := groupInputs(vars)
+	// runs of consecutively numbered model variables with a common prefix
+	type mv struct {
+		n int
+		v *big.Int
+	}
+	byPrefix := map[string][]mv{}
+	for name, v := range model {
+		i := strings.LastIndex(name, "!")
+		if i < 0 {
+			continue
+		}
+		n, err := strconv.Atoi(name[i+1:])
+		if err != nil {
+			continue
+		}
+		byPrefix[name[:i]] = append(byPrefix[name[:i]], mv{n, v})
+	}
+	var seqs [][]*big.Int
+	for _, l := range byPrefix {
+		sort.Slice(l, func(i, j int) bool { return l[i].n < l[j].n })
+		start := 0
+		for i := 1; i <= len(l); i++ {
+			if i == len(l) || l[i].n != l[i-1].n+1 {
+				var s []*big.Int
+				for _, x := range l[start:i] {
+					s = append(s, x.v)
+				}
+				seqs = append(seqs, s)
+				start = i
+			}
+		}
+	}
+	base := func() map[*Term]*big.Int {
+		env := map[*Term]*big.Int{}
+		for _, v := range vars {
+			if x, ok := model[v.name]; ok {
+				env[v] = x
+			} else {
+				env[v] = big.NewInt(0)
+			}
+		}
+		return env
+	}
+	try := func(env map[*Term]*big.Int) *Oblig {
+		ev := newEvaluator(env)
+		for _, ob := range cand {
+			ok := true
+			for _, h := range flattenAnd(ob.Hyp) {
+				x, err := ev.eval(h)
+				if err != nil || x.Sign() == 0 {
+					ok = false
+					break
+				}
+			}
+			if !ok {
+				continue
+			}
+			g, err := ev.eval(ob.Goal)
+			if err != nil || g.Sign() != 0 {
+				continue
+			}
+			m := map[string]*big.Int{}
+			for v, x := range env {
+				m[v.name] = x
+			}
+			ob.Verdict = "refuted"
+			ob.Solver = "solver model of the contract-level obligation, intermediate vector transplanted into the input (contracts off)"
+			ob.Model = m
+			ob.Concrete = true
+			ob.Mode = r.attr("mode", "bv")
+			return ob
+		}
+		return nil
+	}
+	tries := 0
+	defer func() {
+		// (see below) nothing to clean up; kept for symmetry with the solver pass
+	}()
+	for _, g := range groups {
+		n := len(g.vars)
+		for _, s := range seqs {
+			for off := 0; off+n <= len(s) && tries < 400; off++ {
+				env := base()
+				fits := true
+				for i, x := range g.vars {
+					if x == nil {
+						continue
+					}
+					if s[off+i].BitLen() > x.sort.W {
+						fits = false
+						break
+					}
+					env[x] = s[off+i]
+				}
+				if !fits {
+					continue
+				}
+				tries++
+				if ob := try(env); ob != nil {
+					return ob
+				}
+			}
+		}
+	}
+	// model-guided concretisation: run the harness once more with the contracts in place AND the real functions
+	// executed inside them (shadow run); ask the solver for harness inputs under which the real intermediate
+	// results equal the values the abstract model chose for the corresponding havoc variables
+	if len(r.Uses) > 0 {
+		d3 := *r.Dir
+		d3.Attrs = map[string]string{}
+		for k, v := range r.Dir.Attrs {
+			d3.Attrs[k] = v
+		}
+		d3.Attrs["shadow"] = "1"
+		d3.Attrs["maxinstr"] = "3000000"
+		r3 := &ObRun{Dir: &d3, Ld: r.Ld, Cases: r.Cases, Name: r.Name}
+		func() {
+			defer func() { recover() }()
+			r3.execute()
+		}()
+		var eqs []*Term
+		for _, pr := range r3.ShadowPairs {
+			if v, ok := model[pr[0].name]; ok && pr[0].sort.K == KBV && pr[1].sort == pr[0].sort {
+				eqs = append(eqs, Eq(pr[1], BVC(v, pr[0].sort.W)))
+			}
+		}
+		if os.Getenv("VERIF_DEBUG") != "" {
+			fmt.Fprintf(os.Stderr, "[concretise] shadow run: err=%q pairs=%d matched=%d\n", r3.Err, len(r3.ShadowPairs), len(eqs))
+		}
+		if len(eqs) > 0 {
+			q := AndAll(eqs...)
+			if !q.IsFalse() {
+				res := SolveC(SMTScript([]*Term{q}), termVars(q), 25*time.Second, []string{"z3new", "z3", "cvc5"}, nil)
+				if os.Getenv("VERIF_DEBUG") != "" {
+					fmt.Fprintf(os.Stderr, "[concretise] inversion query: %s (%s)\n", res.Status, res.Solver)
+				}
+				if res.Status == "sat" && res.Model != nil {
+					env := base()
+					for _, v := range vars {
+						if x, ok := res.Model[v.name]; ok {
+							env[v] = x
+						}
+					}
+					if ob := try(env); ob != nil {
+						ob.Solver = "abstract model concretised by solving real intermediate results = model values (" + res.Solver + "), contracts off"
+						return ob
+					}
+				}
+			}
+		}
+		// joint query: the abstract obligation together with "havoc variable = real intermediate result" for
+		// every pair (the contract facts stay in as lemmas)
+		var peqs []*Term
+		for _, pr := range r3.ShadowPairs {
+			if pr[1].sort == pr[0].sort {
+				peqs = append(peqs, Eq(pr[0], pr[1]))
+			}
+		}
+		if len(peqs) > 0 && abs.Hyp != nil {
+			jo := &Oblig{Name: abs.Name, Kind: abs.Kind, Hyp: AndAll(append([]*Term{abs.Hyp}, peqs...)...), Goal: abs.Goal}
+			func() {
+				defer func() { recover() }()
+				dischargeOneNoSearch(jo, r.attr("mode", "bv"), []string{"z3new", "z3", "cvc5"}, 60*time.Second)
+			}()
+			if os.Getenv("VERIF_DEBUG") != "" {
+				fmt.Fprintf(os.Stderr, "[concretise] joint query: %q (%s)\n", jo.Verdict, jo.Solver)
+			}
+			if jo.Verdict == "refuted" && jo.Model != nil {
+				env := base()
+				for _, v := range vars {
+					if x, ok := jo.Model[v.name]; ok {
+						env[v] = x
+					}
+				}
+				if ob := try(env); ob != nil {
+					ob.Solver = "joint query: abstract obligation + real intermediate results (" + jo.Solver + "), validated with contracts off"
+					return ob
+				}
+			}
+		}
+	}
+	// the solver on the real-code obligation of the same name (both encodings, short caps; only sat is used)
+	mode := r.attr("mode", "bv")
+	n := 0
+	for _, ob := range cand {
+		if ob.Name != wantName && wantName != "" {
+			continue
+		}
+		if n++; n > 3 {
+			break
+		}
+		for _, m := range []string{mode, "bv"} {
+			o2 := &Oblig{Name: ob.Name, Kind: ob.Kind, Pos: ob.Pos, Hyp: ob.Hyp, Goal: ob.Goal}
+			func() {
+				defer func() { recover() }()
+				dischargeOneNoSearch(o2, m, []string{"z3new", "z3", "cvc5"}, 25*time.Second)
+			}()
+			if os.Getenv("VERIF_DEBUG") != "" {
+				fmt.Fprintf(os.Stderr, "[concretise] %s mode=%s -> %q (%s)\n", ob.Name, m, o2.Verdict, o2.Solver)
+			}
+			if o2.Verdict == "refuted" && o2.Model != nil {
+				ob.Verdict = "refuted"
+				ob.Solver = o2.Solver + " on the real-code obligation (contracts off)"
+				ob.Model = o2.Model
+				ob.Concrete = true
+				ob.Mode = m
+				return ob
+			}
+			if m == "bv" {
+				break
+			}
+		}
+	}
+	return nil
+}
+
+// dischargeOneNoSearch: one solver call for an obligation, without the sampling / search fallbacks.
+func dischargeOneNoSearch(ob *Oblig, mode string, solvers []string, timeout time.Duration) {
+	roots := []*Term{ob.Hyp, Not(ob.Goal)}
+	var script string
+	var vars []*Term
+	if mode == "int" {
+		tr := newIntTranslator()
+		tr.scan(flattenAnd(ob.Hyp))
+		var iroots []*Term
+		for _, t := range flattenAnd(ob.Hyp) {
+			iroots = append(iroots, tr.hyp(t))
+		}
+		tr.inGoal = true
+		g := tr.boolean(ob.Goal)
+		tr.inGoal = false
+		iroots = append(iroots, Not(g))
+		iroots = append(iroots, tr.sideConstraints(iroots)...)
+		script = SMTScript(iroots)
+		vars = termVars(iroots...)
+	} else {
+		script = SMTScript(roots)
+		vars = termVars(roots...)
+	}
+	res := SolveC(script, vars, timeout, solvers, nil)
+	ob.Solver = res.Solver
+	if res.Status == "sat" {
+		ob.Verdict = "refuted"
+		ob.Model = res.Model
+	}
+}
